@@ -269,7 +269,7 @@ Theorem hals_cold_start UtM UtU r n sol iters tol o : h_nz o = false -> wfm r n 
     hals_nnls Rops UtM UtU n None sol iters tol o = Ok (iterl m (hals_pass Rops UtM UtU n o) (hals_init Rops UtM UtU n sol)).
 Proof.
   intros NZ W. split; [now apply hals_init_wfm|].
-  unfold hals_nnls. rewrite NZ. cbn [andb].
+  unfold hals_nnls, hals_rejects. rewrite NZ. cbn [andb].
   destruct (hals_loop_iter Rops UtM UtU n o tol iters true (f0 Rops) (hals_init Rops UtM UtU n sol)) as (m & Hm & ->). now exists m.
 Qed.
 
@@ -280,7 +280,7 @@ Theorem hals_cold_start_ge_eps UtM UtU r n sol iters tol o : wfm r r UtU -> wfm 
   exists W, hals_nnls Rops UtM UtU n None sol iters tol o = Ok W /\
             forall i j, (i < r)%nat -> (j < n)%nat -> h_eps o <= Mget W i j.
 Proof.
-  intros WG WB NZ W Hit HG. unfold hals_nnls. rewrite NZ. cbn [andb].
+  intros WG WB NZ W Hit HG. unfold hals_nnls, hals_rejects. rewrite NZ. cbn [andb].
   destruct (hals_loop_iter_pos Rops UtM UtU n o tol iters true (f0 Rops) (hals_init Rops UtM UtU n sol) Hit) as (m & Hm & ->).
   eexists. split; [reflexivity|]. destruct m as [|m]; [lia|].
   intros i j Hi Hj. apply (iterates_ge_eps_any_start UtM UtU r n o WG WB NZ m); auto. now apply hals_init_wfm.
@@ -320,7 +320,63 @@ Fixpoint fista_run (UtM UtU : mat) (n : nat) (nonneg : bool) (sp rd lr eps : R) 
   end.
 Lemma fabs_nonneg t : 0 <= fabs Rops t.
 Proof. unfold fabs. cbn [fleb f0 fopp Rops]. unfold Rleb. destruct (Rle_dec 0 t); lra. Qed.
-(* with tol = 0 the rule |sum(x - x_new)| < tol * norm_0 never fires: the result is the full iterate *)
+Lemma fabs_R t : fabs Rops t = Rabs t.
+Proof.
+  unfold fabs. cbn [fleb f0 fopp Rops]. unfold Rleb. destruct (Rle_dec 0 t) as [H|H].
+  - now rewrite Rabs_right by lra.
+  - rewrite Rabs_left by lra. reflexivity.
+Qed.
+
+(* sums of non-negative numbers dominate every summand *)
+Lemma fold_add_ge l : Forall (fun v => 0 <= v) l -> forall a,
+  a <= fold_left (fadd Rops) l a /\ forall v, In v l -> a + v <= fold_left (fadd Rops) l a.
+Proof.
+  induction 1 as [|y l Hy _ IH]; intros a; cbn [fold_left]; [split; [lra | intros v []]|].
+  destruct (IH (fadd Rops a y)) as [H1 H2]. cbn [fadd Rops] in *. split; [lra|].
+  intros v [<-|Hv]; [exact H1 | specialize (H2 v Hv); lra].
+Qed.
+Lemma vsum_nonneg l : Forall (fun v => 0 <= v) l -> 0 <= vsum Rops l /\ forall v, In v l -> v <= vsum Rops l.
+Proof.
+  intros H. unfold vsum. destruct (fold_add_ge l H (f0 Rops)) as [H1 H2]. cbn [f0 Rops] in *. split; [exact H1|].
+  intros v Hv. specialize (H2 v Hv). lra.
+Qed.
+Lemma msum_ge_entry (A : mat) : Forall (Forall (fun v => 0 <= v)) A ->
+  0 <= msum Rops A /\ forall row v, In row A -> In v row -> v <= msum Rops A.
+Proof.
+  intros H. unfold msum.
+  assert (HS : Forall (fun v => 0 <= v) (map (vsum Rops) A)).
+  { apply Forall_map. eapply Forall_impl; [|exact H]. intros row Hr. cbn beta. exact (proj1 (vsum_nonneg row Hr)). }
+  destruct (vsum_nonneg _ HS) as [H1 H2]. split; [exact H1|].
+  intros row v Hrow Hv. apply Rle_trans with (vsum Rops row).
+  - rewrite Forall_forall in H. exact (proj2 (vsum_nonneg row (H row Hrow)) v Hv).
+  - apply H2. now apply in_map.
+Qed.
+Lemma mmap_fabs_nonneg (A : mat) : Forall (Forall (fun v => 0 <= v)) (mmap (fabs Rops) A).
+Proof.
+  unfold mmap. apply Forall_map. apply Forall_forall. intros row _. apply Forall_map. apply Forall_forall. intros v _. apply fabs_nonneg.
+Qed.
+Lemma fista_nrm_nonneg x xn : 0 <= fista_nrm Rops x xn.
+Proof. unfold fista_nrm. apply msum_ge_entry, mmap_fabs_nonneg. Qed.
+
+(* the repaired stopping quantity is the l1 norm of the step: it bounds every entry of the step, so that when
+   `norm < tol * norm_0` fires, EVERY coordinate moved by less than tol * norm_0 (the signed sum of the old code
+   bounded nothing) *)
+Theorem fista_nrm_bounds_step r n (x xn : mat) i j : wfm r n x -> wfm r n xn -> (i < r)%nat -> (j < n)%nat ->
+  Rabs (Mget x i j - Mget xn i j) <= fista_nrm Rops x xn.
+Proof.
+  intros Wx Wn Hi Hj. unfold fista_nrm.
+  assert (WD : wfm r n (mmap2 (fsub Rops) x xn)) by now apply wfm_mmap2.
+  assert (WA : wfm r n (mmap (fabs Rops) (mmap2 (fsub Rops) x xn))) by now apply wfm_mmap.
+  set (A := mmap (fabs Rops) (mmap2 (fsub Rops) x xn)) in *.
+  assert (E : Mget A i j = Rabs (Mget x i j - Mget xn i j)).
+  { unfold A. rewrite (mget_mmap r n) by assumption. rewrite (mget_mmap2 r n) by assumption. cbn [fsub Rops]. apply fabs_R. }
+  rewrite <- E. destruct WA as [LA RA].
+  apply (proj2 (msum_ge_entry A (mmap_fabs_nonneg _)) (nth i A [])).
+  - apply nth_In. lia.
+  - unfold mget, mrow. apply nth_In. rewrite RA by exact Hi. exact Hj.
+Qed.
+
+(* with tol = 0 the rule norm < tol * norm_0 never fires: the result is the full iterate of the budget *)
 Theorem fista_tol0_runs_all UtM UtU n nonneg sp rd lr eps betas : forall first norm0 x xu,
   fista_loop Rops UtM UtU n nonneg sp rd lr 0 eps betas first norm0 x xu = fista_run UtM UtU n nonneg sp rd lr eps betas x xu.
 Proof.
@@ -328,6 +384,14 @@ Proof.
   cbn [fista_loop fista_run]. cbv zeta.
   match goal with |- context [fltb Rops ?a ?b] => assert (E : fltb Rops a b = false) end.
   { unfold fltb. cbn [fleb fmul Rops]. apply negb_false_iff, Rleb_true.
-    match goal with |- _ <= fabs Rops ?t => pose proof (fabs_nonneg t) end. lra. }
+    match goal with |- _ <= fista_nrm Rops ?u ?v => pose proof (fista_nrm_nonneg u v) end. lra. }
   rewrite E. apply IH.
+Qed.
+
+Lemma fista_trace_snd {F} (Op : fops F) UtM UtU n nonneg sp rd lr tol eps betas : forall first norm0 x xu,
+  snd (fista_trace Op UtM UtU n nonneg sp rd lr tol eps betas first norm0 x xu) =
+  fista_loop Op UtM UtU n nonneg sp rd lr tol eps betas first norm0 x xu.
+Proof.
+  induction betas as [|beta rest IH]; intros first norm0 x xu; [reflexivity|].
+  cbn [fista_trace fista_loop]. cbv zeta. destruct (fltb _ _ _); [reflexivity|]. cbn [snd]. apply IH.
 Qed.
